@@ -11,8 +11,8 @@ from .common import F, G, base_sample, cfg_simplifications, crash_bucket, is_F16
 
 ID = "C08"
 RULE = ("Hypothesis-generated configurations with off_season=False and 2-4 seasons: all six strategies (dry starts for net "
-        "irrigation, threshold/interval irrigation with day-1 demand), bunds with initial ponding, thermal crops, explicit latest "
-        "harvest dates, constant water tables. For every season k>=1 a fresh model built from fresh objects is started on that "
+        "irrigation, threshold/interval irrigation with day-1 demand), bunds with initial ponding, thermal crops (35 % on whole-degree 'lattice' weather whose degree-day "
+        "sums land exactly on the calendar thresholds), explicit latest harvest dates, constant water tables. For every season k>=1 a fresh model built from fresh objects is started on that "
         "season's planting date (same end, weather and latest harvest date); its rows and summary must be bitwise equal to the "
         "tail of the long run from that planting date on. One evaluation per (configuration, k). Non-trivial pair: the water "
         "stored at the end of season k-1 differs from the initial storage by > 1 mm (there is something that could leak); "
